@@ -33,8 +33,14 @@ theorem h5_roundtrip_loaded (f : TFld) (hf : f.Inv) (hu : f.unit ≠ some "None"
 identical region corners *including their int/float dtype*, dimension names, units,
 tolerance factor, cell counts, boundary conditions, subregions (names, order, corner
 numbers, names/units/tolerance), component count, labels or none, unit or none, array shape,
-every value as a number, real data real and complex data complex, and validity. -/
-theorem h5_roundtrip_items (f : TFld) (hf : f.Inv) (hu : f.unit ≠ some "None") :
+every value as a number, real data real and complex data complex, and validity.
+
+`_partial`: the property promises this for every unit; the hypothesis `hu` excludes the one
+unit string `"None"`, for which the statement is false of the code (`unit_None_is_lost`
+proves the negation).  Values are rationals here: that an `int64` beyond 2^53 does not
+survive the conversion to `float64` on reading is invisible to this model and is checked on
+the real code by the harness oracle. -/
+theorem h5_roundtrip_partial (f : TFld) (hf : f.Inv) (hu : f.unit ≠ some "None") :
     ∃ g, h5Load (h5Save f) = .ok g ∧
       g.mesh.region = f.mesh.region ∧ g.mesh.n = f.mesh.n ∧ g.mesh.bc = f.mesh.bc ∧
       g.mesh.subs.map (fun p => (p.1, p.2.pmin.vals, p.2.pmax.vals, p.2.dims, p.2.units, p.2.tol))
@@ -62,6 +68,11 @@ theorem h5_roundtrip (f : TFld) (hf : f.Inv) (hu : f.unit ≠ some "None")
     (hmap : f.vmap = defaultVmap f.nvdim f.mesh.region.dims f.vdims) :
     h5Load (h5Save f) = .ok f := by
   rw [h5_roundtrip_loaded f hf hu, loaded_eq_self f hsub hdata hmap]
+
+/-- the state read back again satisfies what the constructors guarantee (so every theorem
+here applies to it in turn) -/
+theorem roundtrip_preserves_inv (f : TFld) (hf : f.Inv) : (loaded f).Inv :=
+  loaded_inv f hf
 
 /-- **Second generation is exact.**  Whatever was read from a file is a fixed point: writing
 it again and reading it back returns exactly the same state (all dtypes included). -/
